@@ -97,8 +97,9 @@ def battery(fqe, seed, tier):
         out[f"wide-apply:{norb}:{na}:{nb}"] = enc(res.ravel()[:: max(1, res.size // 6000)])
     # apply / evolve / rdm / cirq on random small cases
     ncases = 40 if quick else 400
-    for case in range(ncases):
-        spec = C01.gen_case(ctx, case, rng)
+    for case in range(ncases + (8 if quick else 40)):
+        # the last cases put at most one electron per spin into four orbitals (low-filling kernels of the reference path)
+        spec = C01.gen_case(ctx, case, rng) if case < ncases else C01.gen_case(ctx, 100000 + case, rng, lowfilling=True)
         tens = [numpy.ascontiguousarray(C01.dec_arr(t)) for t in spec["tensors"]]
         hk = spec["ham"]
         if spec.get("broken") == "spin":
